@@ -162,6 +162,8 @@ func (r *runner) track(b Blk, now ASt) {
 				g = "witness-contract"
 			case "drain":
 				g = "balance"
+			case "withdraw":
+				g = "notary-deposit"
 			case "conflict":
 				g = "conflict-on-chain"
 			default:
@@ -485,7 +487,15 @@ func randomUniverse(r *rand.Rand) Universe {
 	if r.Intn(6) == 0 {
 		st.Blocked = []string{pick(r, []string{"X", "Y", "D"})}
 	}
-	u := Universe{St: st, MaxTx: 1 + r.Intn(5)}
+	u := Universe{St: st, MaxTx: 1 + r.Intn(5), Till: map[string]int{}}
+	var deps []string
+	for _, p := range payers[:2] {
+		if r.Intn(3) == 0 {
+			u.St.Bal["DEP"+p] = int64(40_000_000 + r.Intn(60_000_000))
+			u.Till["DEP"+p] = 1 + r.Intn(6)
+			deps = append(deps, "DEP"+p)
+		}
+	}
 	n := 7 + r.Intn(8)
 	for i := 1; i <= n; i++ {
 		a := ATx{ID: i, Signers: []string{pick(r, payers)}, Vub: 1 + r.Intn(9), Sysfee: int64(1+r.Intn(30)) * 100000}
@@ -522,7 +532,7 @@ func randomUniverse(r *rand.Rand) Universe {
 			a.Conf = []int{1 + r.Intn(i-1)}
 			if r.Intn(2) == 0 { // signed by a signer of the named one as well (so that it may replace it in the pool)
 				o := u.Txs[a.Conf[0]-1].Signers[0]
-				if o != a.Signers[0] && o != "ORC" && o != "K" {
+				if o != a.Signers[0] && o != "ORC" && o != "K" && !strings.HasPrefix(o, "DEP") {
 					a.Signers = append(a.Signers, o)
 				}
 			}
@@ -550,6 +560,11 @@ func randomUniverse(r *rand.Rand) Universe {
 			if a.Vub <= a.Nvb {
 				a.Vub = a.Nvb + 1 + r.Intn(4)
 			}
+		case k < 18 && len(deps) > 0:
+			// the Notary contract sends, the depositor pays from its deposit
+			d := pick(r, deps)
+			a.Nn = 1 + r.Intn(2)
+			a.Signers = []string{d, d[3:]}
 		}
 		u.Txs = append(u.Txs, a)
 	}
@@ -633,10 +648,16 @@ func (r *runner) randomBlock(rd *rand.Rand) Blk {
 			if len(opts) > 0 {
 				return Blk{Op: "cver", A: "K", V: pick(rd, opts)}
 			}
+		case k < 80:
+			for _, d := range []string{"DEPA", "DEPB"} {
+				if st.Bal[d] > 0 && st.H >= w.u.Till[d] {
+					return Blk{Op: "withdraw", A: d}
+				}
+			}
 		case k < 85:
 			if len(payers) > 0 {
 				p := pick(rd, payers)
-				if b := st.Bal[p]; p != "ORC" && p != "K" && b > 200000 && b < balCap && !slices.Contains(st.Blocked, p) {
+				if b := st.Bal[p]; p != "ORC" && p != "K" && !strings.HasPrefix(p, "DEP") && b > 200000 && b < balCap && !slices.Contains(st.Blocked, p) {
 					return Blk{Op: "drain", A: p, V: b / int64(2+rd.Intn(3))}
 				}
 			}
@@ -645,7 +666,7 @@ func (r *runner) randomBlock(rd *rand.Rand) Blk {
 				id := pick(rd, pooled)
 				by := pick(rd, []string{"S", "X", "Y"})
 				if rd.Intn(2) == 0 {
-					if s := w.u.Txs[id-1].Signers[0]; s != "ORC" && s != "K" {
+					if s := w.u.Txs[id-1].Signers[0]; s != "ORC" && s != "K" && !strings.HasPrefix(s, "DEP") {
 						by = s
 					}
 				}
